@@ -99,6 +99,8 @@ def walk(node):
         if isinstance(n, dict):
             if "k" in n:
                 yield n
+                if n["k"] == "sizeof":
+                    continue      # operand is not evaluated
             for v in reversed(list(n.values())):
                 if isinstance(v, (dict, list)):
                     stack.append(v)
